@@ -78,6 +78,30 @@ pub struct Outcome {
 }
 
 impl Outcome {
+    /// placeholder for history steps that are not CLI invocations (manual edits of the output)
+    pub fn placeholder(before: Snapshot, after: Snapshot) -> Outcome {
+        Outcome {
+            class: ResultClass::Ok,
+            err_text: String::new(),
+            diags: vec![],
+            oplog: vec![],
+            chanlog: vec![],
+            arrival: vec![],
+            panics: vec![],
+            panic_message: String::new(),
+            probes: Default::default(),
+            fired: Default::default(),
+            schedule: vec![],
+            steps: 0,
+            switches: 0,
+            replay_diverged: false,
+            pipe_states: Default::default(),
+            hash_calls: 0,
+            max_tasks: 0,
+            before,
+            after,
+        }
+    }
     pub fn errors(&self) -> Vec<&str> {
         self.diags.iter().filter(|d| d.0 == log::Level::Error as u8).map(|d| d.1.as_str()).collect()
     }
@@ -496,6 +520,7 @@ pub fn run_invocation(scratch: &mut Scratch, tree: &Tree, inv: &Inv, out: &Path)
         .spawn(move || {
             tid_cell2.store(unsafe { libc::gettid() }, std::sync::atomic::Ordering::SeqCst);
             crate::hashseed::set_thread_hash_seed(inv2.hash_seed | 1);
+            crate::hashseed::set_thread_wall_clock(if inv2.wall_clock == 0 { 1_700_000_000 } else { inv2.wall_clock });
             crate::shims::channel::reset();
             let fault_rng = crate::rng::Rng::new(inv2.hash_seed ^ 0xFA17).derive(match &inv2.sched {
                 SchedSpec::Random { seed } | SchedSpec::Pct { seed, .. } => *seed,
@@ -523,7 +548,11 @@ pub fn run_invocation(scratch: &mut Scratch, tree: &Tree, inv: &Inv, out: &Path)
                 });
             }));
             let hash_calls = crate::hashseed::calls();
+            if crate::hashseed::wall_clock_reads() > 0 {
+                ctx::probe("wall_clock_read");
+            }
             crate::hashseed::set_thread_hash_seed(0);
+            crate::hashseed::set_thread_wall_clock(0);
             let c = ctx::take().expect("ctx vanished");
             let st = state.lock().unwrap();
             let mut panic_message = String::new();
